@@ -48,6 +48,12 @@ inductive Err where
   | nilBuffer
   /-- `getLastNodeId` / `getNextGeneInnovNum` on a genome without nodes / genes -/
   | noNodes | noGenes
+  /-- a failed type assertion / index out of range / `make` with a negative length: the Go code panics -/
+  | panic
+  /-- YAML module: `no MIMO input/output node with id … can be found` -/
+  | noModuleNode (id : Int)
+  /-- YAML: `control node ID … is not unique` -/
+  | dupControlNode (id : Int)
 deriving Repr, DecidableEq
 
 structure Codec (F : Type) where
